@@ -249,16 +249,16 @@ def check(ctx):
     nfix = 0
     for m_, info in sorted(curw.items()):
         made = set()
-        for lab, fa in info["records"]:
+        for lab, fa in info.get("calls", info["records"]):
             if lab == "call:_fix_decl_name_type":
                 made.add(m_)
         if not made:
             continue
         normalised = set()
-        for lab, fa in info["records"]:
+        for lab, fa in info.get("calls", info["records"]):
             if lab == "call:fix_atomic_specifiers":
                 normalised |= {v for v in fa.get("p0", []) if v.startswith("_fix_decl_name_type#")}
-        ncalls = sum(1 for lab, _ in info["records"] if lab == "call:_fix_decl_name_type")
+        ncalls = sum(1 for lab, _ in info.get("calls", info["records"]) if lab == "call:_fix_decl_name_type")
         ok = len(normalised) >= ncalls
         nfix += 1
         ctx.oblige("R-C07.4", f"{m_}: types assembled by _fix_decl_name_type are normalised by fix_atomic_specifiers", ok, sample={"rule": "R-C07.4", "method": m_, "_fix_decl_name_type calls": ncalls, "normalised": sorted(normalised)})
@@ -288,7 +288,7 @@ def check(ctx):
                     if gcls:
                         printed_quals.add(gcls)
     for m_, info in sorted(curw.items()):
-        fixed_nodes = {v for lab, fa in info["records"] if lab == "call:_fix_decl_name_type" for v in fa.get("p0", [])}
+        fixed_nodes = {v for lab, fa in info.get("calls", info["records"]) if lab == "call:_fix_decl_name_type" for v in fa.get("p0", [])}
         counters = {}
         for lab, fa in info["records"]:
             cls = lab.split(">")[-1]
